@@ -21,6 +21,17 @@ Bad(e) ==
          \cup T(NoBrackets(e.sig) /\ NoBrackets(e.body) /\ Len(e.sig) >= 1 /\ Len(e.body) >= 1
                   /\ (e.outbody # e.body \/ e.outsig # e.sig), "X.helper.removesign")
          \cup T(NoBrackets(e.sig) /\ NoBrackets(e.body) /\ Len(e.sig) >= 1 /\ e.parsed # e.sig, "X.helper.parsesignature")
+    [] e.ev = "Registry" ->
+         \* one event per protocol: rows for every number -1..300
+         LET R == e.rows
+             ok(r) == /\ r.valid = (r.c \in RegValid(e.proto)) /\ r.wire = RegWire(e.proto, r.c) /\ r.name = RegName(e.proto, r.c)
+                      /\ r.codec = RegCodec(e.proto, r.c)
+                      /\ r.getcodec = (IF r.c \in RegValid(e.proto) THEN RegCodec(e.proto, r.c) ELSE "UCS2")
+                      /\ (r.codec # "" => <<r.maxlen, r.splitby>> = RegLimits(r.codec))
+         IN T(\E i \in 1..Len(R) : ~ok(R[i]), "X.helper.registry")
+            \cup T({R[i].c : i \in 1..Len(R)} # -1..300, "X.helper.driver")
+            \cup T(\E i, j \in 1..Len(R) : R[i].valid /\ R[j].valid /\ R[i].c \in RegValid(e.proto) /\ R[j].c \in RegValid(e.proto)
+                      /\ (R[i].prio < R[j].prio) # (RegRank(e.proto, R[i].c) < RegRank(e.proto, R[j].c)), "X.helper.registry.order")
 
 TraceNext ==
   \/ /\ l <= Len(Trace)
